@@ -47,6 +47,9 @@ type Case struct {
 	// C15/m5: such an answer blocked the dispatcher, the next ping timed out and a live peer was dropped)
 	LateAnswerMs int `json:"late_answer_ms,omitempty"`
 	AbandonMs    int `json:"abandon_ms,omitempty"`
+	// dead only: closing the transport takes CloseDelayMs (a close handshake with a peer that is gone): the loss is announced when it
+	// is detected, not when the close finally returns (seeded change C15/m6)
+	CloseDelayMs int `json:"close_delay_ms,omitempty"`
 	StallAtMs    int `json:"stall_at_ms,omitempty"`
 	StallMs      int `json:"stall_ms,omitempty"`
 	Burst        int `json:"burst,omitempty"`
@@ -122,6 +125,7 @@ func runOnce(c Case) (*result, *ev.Failure) {
 	reconnCh := make(chan struct{}, 4)
 	if c.Level == "wire" {
 		link := sim.NewLink(0, transport.DialConfig{EncodingName: transport.EncodingNameProtobuf})
+		link.CloseDelay = time.Duration(c.CloseDelayMs) * time.Millisecond
 		atomic.StoreInt32(&firstInc, 0)
 		b.Serve(link)
 		defer link.Sever()
@@ -353,6 +357,9 @@ func gen(t *rapid.T) Case {
 		c.TimeoutMs = rapid.SampledFrom([]int{20, 35, 50, 100}).Draw(t, "timeout")
 		c.AnswerK = rapid.IntRange(0, 5).Draw(t, "k")
 		c.LateFactor = rapid.SampledFrom([]int{0, 0, 2, 3}).Draw(t, "late")
+		if c.Level == "wire" && rapid.IntRange(0, 5).Draw(t, "slowclose") == 0 {
+			c.CloseDelayMs = 3000
+		}
 	} else {
 		c.Mode = "live"
 		c.IntervalMs = rapid.SampledFrom([]int{20, 35, 50}).Draw(t, "interval")
